@@ -104,6 +104,16 @@ func (x *c20SX) model(fn *types.Func, call *ast.CallExpr, recv *c20V, args []c20
 				}
 			}
 			return c20Unknown("`%s`", x.srcOf(call)), true
+		case "strconv.FormatFloat":
+			// FormatFloat(x, 'f', 6, 64) prints like %f
+			if len(args) == 4 && args[0].k == c20kIn && args[0].h != nil && args[1].k == c20kInt && args[2].k == c20kInt && args[3].k == c20kInt {
+				h := *args[0].h
+				if !(args[1].n == 'f' && args[2].n == 6 && args[3].n == 64) {
+					h.verb = fmt.Sprintf("float<%c,%d,%d>", rune(args[1].n), args[2].n, args[3].n)
+				}
+				return c20StrV(c20Sym{{hole: &h}}), true
+			}
+			return c20Unknown("`%s`", x.srcOf(call)), true
 		case "strconv.Itoa":
 			if len(args) == 1 {
 				if tok, ok := x.numTok(args[0], c20V{k: c20kInt, n: 10}); ok {
@@ -288,6 +298,9 @@ func (x *c20SX) join(l, sep c20V, call *ast.CallExpr) c20V {
 	}
 	if l.k != c20kList || l.in || sep.k != c20kStr || len(sep.sym.holes()) != 0 {
 		return c20Unknown("`%s` does not join a list built here with a constant separator", x.srcOf(call))
+	}
+	if l.tag == "presized" && l.star == nil {
+		return c20Unknown("`%s` joins a presized list that was not filled by a loop over the slice it is sized by", x.srcOf(call))
 	}
 	s := sep.sym.render(nil)
 	var out c20Sym
